@@ -167,8 +167,8 @@ def route_cases(chk, tier):
         for cls in PROTO:
             out.append(("/wap", "direct", cls, None, line))
     # other WAP prefixes (the prefix is configuration)
-    for waptop in ("", "/w", "/wap/deck", "/wap%20", "wap"):
-        for t in (b"/wap/x", b"/w/x", b"/wap/deck/x", b"/wap%20/x", b"wap/x", b"/x", b"/wap/deck", b"", b"/wap/deck?searchrequest=q"):
+    for waptop in ("", "/w", "/wap/deck", "/wap~1", "wap"):
+        for t in (b"/wap/x", b"/w/x", b"/wap/deck/x", b"/wap~1/x", b"wap/x", b"/x", b"/wap/deck", b"", b"/wap/deck?searchrequest=q"):
             out.append((waptop, "direct", "WAPProtocol", None, b"GET " + t + b" HTTP/1.0\r\n\r\n"))
     # the same with random noise
     for _ in range(60 if tier == "quick" else 600):
@@ -277,14 +277,14 @@ def run_k05(chk, tier):
         nmis += len(details["unclassified"])
     # branch coverage, measured by the model
     rcov, outcov = coq_compute("C05", "k05_tags", IMPORTS,
-                               "let t := map tag_route cases in map (fun k => N.of_nat (List.length (filter (N.eqb k) t))) [0;1;2;3;4;5;6;7]",
-                               pre="Definition cases := [\n" + ";\n".join(cases[:1500]) + "\n].")
+                               "let t := map tag_route cases in map (fun k => N.of_nat (List.length (filter (N.eqb k) t))) [0;1;2;3;4;5;6;7;8]",
+                               pre="Definition cases := [\n" + ";\n".join(cases) + "\n].")
     import re
     mt = re.search(r"=\s*\[(.*?)\]", outcov, re.S)
     if mt:
         nums = [int(x.strip().replace("%N", "")) for x in mt.group(1).split(";") if x.strip()]
-        details["route"]["model_branches_first_1500"] = dict(zip(
-            ["handler_no_search", "handler_with_search", "icon", "gemini_bad", "gemini_input", "gemini_redirect", "spartan_too_large", "crash"], nums))
+        details["route"]["model_branches"] = dict(zip(
+            ["handler_no_search", "handler_with_search", "icon", "gemini_bad", "gemini_input", "gemini_redirect", "spartan_too_large", "crash", "out_of_scope_spartan_int"], nums))
     # ---- urlparse ----
     ui = urlparse_inputs(chk, tier)
     qi = qs_inputs(chk, tier)
